@@ -263,6 +263,32 @@ func scenarios(thorough bool) []*scenario {
 	refl := ctx{strKeys: true, reflect: true}
 	T, F, U := M.True, M.False, M.Unset
 
+	// ---- shrink, then regrow within the old capacity ----
+	// A removing operation leaves len(values) < cap(values); a later write ABOVE the length (leaving a
+	// gap) makes arrayObject.expand reslice within the capacity: whatever the shrink left behind in
+	// values[len:cap] comes back as own elements instead of holes. Runs first (2 letters suffice).
+	six := varr(vnum(1), vnum(2), vnum(3), vnum(4), vnum(5), vnum(6))
+	plain7 := mkDesc(&v7, nil, nil, T, T, T)
+	acc := mkDesc(nil, &gFn, &sFn, U, T, T)
+	mr := func(name string, args ...val) op { return num.method(name, 64, args...) }
+	rOps := []op{
+		// shrinking letters
+		mr("splice", vnum(1), vnum(3)), mr("splice", vnum(0), vnum(2)), mr("splice", vnum(-2)), mr("splice", vnum(2), vnum(2), vstr("x")), mr("splice", vnum(0), vnum(1)),
+		mr("pop"), mr("shift"), num.setLen(vnum(4)), num.setLen(vnum(2)), num.del(5), mr("sort", vfn("cmpRev")), mr("copyWithin", vnum(0), vnum(3)),
+		// regrowing letters: writes at length+1.. (gap), at the length, via push / unshift / length / growing splice
+		num.set(3, v7), num.set(4, v7), num.set(5, v7), num.set(6, v7), num.set(8, v7), num.def(4, plain7), num.def(5, acc),
+		mr("push", v7), mr("unshift", v7), num.setLen(vnum(6)), mr("splice", vnum(1), vnum(0), vstr("y"), vstr("z")), mr("fill", vnum(0), vnum(1), vnum(2)),
+		// observers beyond the state dump
+		mr("includes", vundef), mr("indexOf", vnum(4)), mr("lastIndexOf", vnum(5)), mr("join"), mr("at", vnum(-1)), mr("slice"), mr("toReversed"), mr("with", vnum(0), vnum(9)),
+		mr("reduce", vfn("rdSum")), mr("forEach", vfn("cbLog")), mr("flat"), mr("toSorted"), exportProbes(64)[0], exportProbes(64)[1],
+		exprOp("Array.from(a)", "Array.from", 64, func(w *M.World, a *M.Obj) M.Val { return w.ArrayFrom(a, true) }),
+		exprOp("JSON.stringify(a)", "JSON.stringify", 64, func(w *M.World, a *M.Obj) M.Val { return jsonModel(w, a) }),
+	}
+	add(&scenario{name: "shrink-regrow", about: "6-element literal (len == cap): every shrinking letter (splice variants, pop, shift, length, delete) followed by writes / defineProperty above, at and below the new length, push, unshift, length growth, growing splice; explored before everything else",
+		c: num, first: true, mainJS: six.js, twinJS: "(function(){var t=[];t[5000]=0;t.length=0;var s=" + six.js + ";for(var i=0;i<s.length;i++)t[i]=s[i];return t})()",
+		mkModel: func(w *M.World) *M.Obj { return six.mk(w).(*M.Obj) }, ops: rOps,
+		probes: []uint64{0, 1, 2, 3, 4, 5, 6, 7, 8}, depthQ: 3, depthT: 4})
+
 	small := []uint64{0, 1, 2}
 	add(&scenario{name: "core-small", about: "exotic-object core on indices 0..2, full descriptor lattice",
 		c: num, mainJS: emptyDense, twinJS: emptySparse, mkModel: emptyArrayModel,
